@@ -991,7 +991,7 @@ THEOREMS = ["Dashu.Props.C06." + n for n in [
     "fbig_to_float_range_test_regenerated", "fbig_to_f32_range_exit_unobservable", "fbig_to_f64_range_exit_unobservable",
     "fbig_try_to_float_range_exit_unobservable", "fbig_to_float_range_exit_decides", "fbig_to_float_range_overflow_is_required",
     "fbig_to_float_range_underflow_is_required", "fbig_to_float_range_underflow_directed_counterexample",
-    "fbig_to_float_range_underflow_every_mode"]]
+    "fbig_to_float_range_underflow_every_mode", "rbig_to_float_alloc_refusal_derived"]]
 EXTRA_AXIOMS = {}      # bv_decide was NOT needed: encode_correct is an arithmetic proof (propext, Classical.choice, Quot.sound only)
 
 REFINED = [
@@ -1061,6 +1061,10 @@ REFINED = [
     "returned bits are the required ones IFF the mode is not one of those three cases (closed form of the recorded finding on this arm)",
     "integer/src/convert.rs try_to_unsigned / unsigned_from_words (all word sizes that are multiples of 8), "
     "integer/src/primitive.rs to_sign_magnitude / try_from_sign_magnitude (all widths), from_unsigned round trip",
+    "rational/src/third_party/dashu_float.rs Repr::to_float, the scaling `&numerator << shift` / `&numerator * base.pow(shift)` at shift >= 2^64 - 64 "
+    "(round 8, link to the integer side's guarded kernels TRepr.shlChecked / ubigPowGuarded, 64-bit words): refused with the documented allocation panic "
+    "for every non-zero numerator (base 2) and for the bases 3, 10, 16 before the numerator is looked at; for numerator 1 nothing is refused below "
+    "that shift (rbig_to_float_alloc_refusal_derived) - the driver's up-front AllocTooMuch is no longer only transcribed",
 ]
 FRONTIER = [
     "rational/src/convert.rs to_f32_fast/to_f64_fast: mirrored, normal form and the quotient-level error bound (< 4.5 units of the quotient, "
@@ -1075,7 +1079,9 @@ FRONTIER = [
     "mirrored code rounds twice and is proved wrong on concrete inputs; no closed form of the exact bad region is proved (the finding predicate "
     "re-computes both roundings per case) — the single-rounding value/flag is decided per case against the specification op `r.to_float`",
     "RBig::to_float with 2^22 < shift < 2^64 - 64 digits (memory proportional to the precision): not driven on either side; the allocation "
-    "refusal beyond that (AllocTooMuch) is transcribed in the driver, not derived from the shl / pow capacity guards (those belong to C16/C17)",
+    "refusal beyond that (AllocTooMuch) is (round 8) DERIVED from the integer side's guarded kernels for 64-bit words and the driven bases "
+    "(rbig_to_float_alloc_refusal_derived, Props/C06Alloc.lean: base 2 every non-zero numerator through TRepr.shlChecked; bases 3/10/16 through "
+    "ubigPowGuarded; threshold sharp for numerator 1) — still open: a base-generic statement (any B >= 3 through maxExpInWord) and 32-bit words",
 ]
 RULE = ("Structured, built from the branch conditions of the code. encode/decode: ALL exponents (qmin-N-6 .. emax+6, and the i16 extremes) x "
         "mantissa classes {1, 3, 2^k, 2^k-1, 2^p±1, i32/i64 MIN/MAX} plus, for every mantissa length L and every cut position k (normal cut L-p, "
